@@ -890,6 +890,7 @@ class Interp:
         vals = []
         n0 = len(cx.pc)
         result = None
+        guards = []
         try:
             for i, e in enumerate(node.values):
                 v = self.eval(e, env, mod)
@@ -906,9 +907,22 @@ class Interp:
                     continue
                 vals.append(t)
                 if i < len(node.values) - 1:
-                    cx.pc.append(t if is_and else z3.Not(t))
+                    g = t if is_and else z3.Not(t)
+                    guards.append((len(cx.pc), g))
+                    cx.pc.append(g)
         finally:
+            # facts assumed while evaluating later operands hold under the guards in force at that point
+            gpos = {pos for pos, _g in guards}
+            kept = []
+            active = []
+            for pos in range(n0, len(cx.pc)):
+                f = cx.pc[pos]
+                if pos in gpos:
+                    active.append(f)
+                else:
+                    kept.append(z3.Implies(z3.And(*active), f) if active else f)
             del cx.pc[n0:]
+            cx.pc.extend(kept)
         zs = [V.to_z3(x) if not isinstance(x, bool) else z3.BoolVal(x) for x in vals]
         if not zs:
             return is_and
@@ -988,22 +1002,25 @@ class Interp:
         c = self.truth(self.eval(node.test, env, mod))
         if isinstance(c, bool):
             return self.eval(node.body if c else node.orelse, env, mod)
-        n0 = len(cx.pc)
-        cx.pc.append(c)
-        try:
-            a = self.eval(node.body, env, mod)
-        finally:
-            del cx.pc[n0:]
-        cx.pc.append(z3.Not(c))
-        try:
-            b = self.eval(node.orelse, env, mod)
-        finally:
-            del cx.pc[n0:]
+        a = self.guarded_eval(c, node.body, env, mod)
+        b = self.guarded_eval(z3.Not(c), node.orelse, env, mod)
         if isinstance(a, Arr) or isinstance(b, Arr) or not _scalarish(a) or not _scalarish(b):
             if cx.fork(c):
                 return a
             return b
         return V.s_ite(c, a, b)
+
+    def guarded_eval(self, guard, node, env, mod):
+        """Evaluate under a temporary hypothesis; facts assumed meanwhile are kept as implications."""
+        cx = self.cx
+        n0 = len(cx.pc)
+        cx.pc.append(guard)
+        try:
+            return self.eval(node, env, mod)
+        finally:
+            kept = [z3.Implies(guard, f) for f in cx.pc[n0 + 1 :]]
+            del cx.pc[n0:]
+            cx.pc.extend(kept)
 
     def e_ListComp(self, node, env, mod):
         return self.comprehension(node, env, mod, "list")
